@@ -98,6 +98,21 @@ def run(ck):
                 # the failing entry in a second context
                 contexts = [dict(window=(None, None), tests=healthy()), dict(window=(t(1), t(4)), tests={sid: [entry]})]
                 check_run(ck, fe, tname, fname, 'second-context', table, contexts, base_map, entry, sid, base_collected)
+    # stream ids that are not strings (YAML reads the keys 0, 7 as integers; DataFrame columns / dict keys may be integers too)
+    ren = {'a': 0, 'b': 7, 'ghost': 99}
+    itable = Table(5, streams=(0, 7), missing={0: {2}})
+    def renamed(tests):
+        return {ren.get(k, k): v for k, v in tests.items()}
+    for fe in ('numpy', 'pandas'):
+        base = run_frontend(ck.runner, fe, itable, make_config_source([dict(window=(None, None), tests=renamed(healthy()))]))
+        if base.error is not None:
+            ck.violate('C18.base', f'{fe}:integer-stream-ids:healthy-run-raises', f'{fe}[integer stream ids]: the healthy config raises {base.error.exc}')
+            continue
+        base_map = result_map(base)
+        for fname in ('unknown-test', 'rejected-parameters', 'missing-required-parameter', 'absent-stream-id', 'raises-on-data', 'raises-KeyError'):
+            sid, entry = FAULTS[fname]
+            contexts = [dict(window=(None, None), tests=renamed(insert(healthy(), sid, entry, 'last')))]
+            check_run(ck, fe, 'integer-stream-ids', fname, 'last', itable, contexts, base_map, entry, ren.get(sid, sid), None)
     xarray_detached_variable(ck)
     ck.floor('C18.survivors', 200)
 
